@@ -59,13 +59,19 @@ def set_val(vals, e, c, new):
         vals[e - 1] = v
 
 
-def alphabet_value(el, n, rng):
+def alphabet_value(el, n, rng, alphabet=None):
     d = el.dtype
     if d and (d[0] == 'N' or d == 'R' or d in ('D8', 'D6', 'DT', 'TM')):
         return ''.join(rng.choice('123456789') for _ in range(n))
     if d == 'RD8':
         return ('20040101-20040102' + '1' * n)[:n] if n > 17 else '2004010'[:n]
-    return ''.join(rng.choice(V.PLAIN) for _ in range(n))
+    v = ''.join(rng.choice(alphabet or V.PLAIN) for _ in range(n))
+    if alphabet and n:
+        # keep first/last characters plain: no leading/trailing blank effects
+        v = rng.choice(V.PLAIN) + v[1:]
+        if n > 1:
+            v = v[:-1] + rng.choice(V.PLAIN)
+    return v
 
 
 def excluded_target(seg, e, c):
@@ -114,7 +120,7 @@ def fmt_types_for(node, e, c, vals):
     return None
 
 
-def enumerate_faults(m, doc, rng, charset, icvn, kinds=None):
+def enumerate_faults(m, doc, rng, charset, icvn, kinds=None, alphabet=None):
     """-> list of fault descriptors (dicts, JSON-able)"""
     out = []
     kinds = set(kinds or (ELEMENT_KINDS + SEGMENT_KINDS))
@@ -141,14 +147,14 @@ def enumerate_faults(m, doc, rng, charset, icvn, kinds=None):
             if cur != '' and el.usage != 'N':
                 ft = fmt_types_for(node, e, c, vals)
                 if 'too_long' in kinds and el.max_len < 300:
-                    add('too_long', alphabet_value(el, el.max_len + 1, rng), '5', 'new')
+                    add('too_long', alphabet_value(el, el.max_len + 1, rng, alphabet), '5', 'new')
                 if 'too_short' in kinds and el.min_len >= 2:
-                    add('too_short', alphabet_value(el, el.min_len - 1, rng), '4', 'new')
+                    add('too_short', alphabet_value(el, el.min_len - 1, rng, alphabet), '4', 'new')
                 if 'bad_code' in kinds and (el.codes or (el.external and el.external in codesets)):
                     pool = set(el.codes) | set(codesets.get(el.external, []) if el.external else [])
                     for _ in range(20):
                         n = rng.randint(el.min_len, min(el.max_len, el.min_len + 3))
-                        cand = alphabet_value(el, max(n, 1), rng)
+                        cand = alphabet_value(el, max(n, 1), rng, alphabet)
                         if cand not in pool and V.is_member(cand, el.dtype, charset, icvn):
                             add('bad_code', cand, '7', 'new')
                             break
